@@ -61,3 +61,12 @@ def witness(script, outname, build_first):
     if p.returncode != 0:
         raise RuntimeError("witness %s failed: %s" % (script, p.stderr[-1500:]))
     open(os.path.join(GEN, outname), "w").write(p.stdout)
+
+
+def schema():
+    """drivers/pg/query/sql/schema_up.sql -> Generated/Schema.lean (tables, composite types, functions)."""
+    _rm("Schema.lean")
+    rc, out = sh(["python3", os.path.join(VERIF, "tools", "extract", "schema.py"),
+                  os.path.join(REPO, "drivers", "pg", "query", "sql", "schema_up.sql"), os.path.join(GEN, "Schema.lean")], timeout=120)
+    if rc != 0:
+        raise RuntimeError("schema.py failed: " + out[-1500:])
